@@ -226,6 +226,18 @@ def stepStateless (ws : List String) : Option String :=
     some (match segments lcp.size lcp (int! mn) (int! mx) with
       | some cbs => showCallbacks cbs
       | none => "panic")
+  | ["segtext", h, mn, mx] =>
+    let t := unhex h
+    let saL := saSpec t
+    let sa := saL.toArray
+    let lcp := lcpKasai t sa (invertSA sa)
+    some (match segments sa.size lcp (int! mn) (int! mx) with
+      | none => "panic"
+      | some cbs =>
+        if cbs.isEmpty then "-" else
+        ";".intercalate (cbs.map fun (m, lo, hi) =>
+          let seg := ((saL.drop lo).take (hi - lo)).mergeSort (fun a b => decide (a ≤ b))
+          s!"{m}:" ++ ".".intercalate (seg.map toString)))
   | ["ulcp", a, b] => some (toString (lcpLen (unhex a) (unhex b)))
   | ["ulcs", a, b] => some (toString (lcsLen (unhex a) (unhex b)))
   | ["ule64", a] => some (toString (le64At (unhex a) 0).toNat)
